@@ -469,14 +469,26 @@ def c17(rng, tier, repo):
             data = os.urandom(ln)
             with open(p, 'wb') as f:
                 f.write(data)
-            names = [k for k, v in expected_table.items() if v in hashlib.algorithms_available]
-            g = list(get_file_metadata(p, names))
-            n += 1
-            want = {k: hashlib.new(expected_table[k], data).hexdigest() for k in names}
-            want['__size__'] = ln
-            if g[-1] != want or g[3] != ln:
-                viol.append({'what': 'C17 get_file_metadata on %d bytes: %r' % (ln, {k: v for k, v in g[-1].items() if want.get(k) != v}),
-                             'key': 'metadata', 'props': ['C17']})
+            allnames = [k for k, v in expected_table.items() if v in hashlib.algorithms_available]
+            # requested name lists: all, reversed, each alone, random subsets in random order, and lists naming a hash twice
+            reqs = [allnames, allnames[::-1]] + [[k] for k in allnames]
+            for _ in range(6 if ln < 100000 else 2):
+                sub = rng.sample(allnames, rng.randint(1, len(allnames)))
+                reqs.append(sub)
+                reqs.append(sub + [rng.choice(sub)])
+                reqs.append([sub[0]] + sub)
+            for names in reqs:
+                try:
+                    g = list(get_file_metadata(p, names))
+                except BaseException as e:
+                    g = [None, None, None, None, None, 'EXC:' + type(e).__name__]
+                n += 1
+                want = {k: hashlib.new(expected_table[k], data).hexdigest() for k in names}
+                want['__size__'] = ln
+                if g[-1] != want or g[3] != ln:
+                    viol.append({'what': 'C17 get_file_metadata(%r) on %d bytes: %r' % (names, ln, g[-1] if isinstance(g[-1], str) else
+                                                                                     {k: g[-1].get(k) for k in want if want.get(k) != g[-1].get(k)}),
+                                 'key': 'metadata' + (':dup-name' if len(set(names)) != len(names) else ''), 'props': ['C17']})
     if dict(MANIFEST_HASH_MAPPING) != expected_table:
         viol.append({'what': 'C17 hash name table differs: %r' % MANIFEST_HASH_MAPPING, 'key': 'table', 'props': ['C17']})
     for bad in ('FOO', 'md5', '__size__', ''):
@@ -667,7 +679,7 @@ def main():
         'C05': 'all sequences (<=3 quick / <=4 thorough, sampled longer) over 18 gpg status line kinds x exit 0/1/2 with a stub gpg; GNUPGHOME isolation; --require-signed-manifest',
         'C14': 'sign option x originally signed x key id x gpg signing failure x sub-Manifest format x odd file names with a stub gpg',
         'C16': 'random directory trees with 1..2 directory symlinks (self/parent/ancestor/sibling/mutual), IGNORE on the link, verify/update/unregistered scan under a 20 s watchdog; faked st_dev per directory/file',
-        'C17': 'content lengths 0..40 (0..300 thorough) and around 64 KiB / 1 MiB x size hints x read schedules (1 byte, random, full) for all available algorithms',
+        'C17': 'content lengths 0..40 (0..300 thorough) and around 64 KiB / 1 MiB x size hints x read schedules (1 byte, random, full) for all available algorithms; get_file_metadata on real files of 0, 1, 64 KiB, 1 MiB+1 bytes with name lists all / reversed / single / random subsets / a name requested twice',
     }.get(prop, ''), 'samples': samples[:3], 'violations': uniq, 'all_violation_count': len(viol), 'wall_s': time.time() - t0})
 
 
